@@ -582,7 +582,8 @@ pub fn stiff(args: &[String]) {
     // Robertson and Van der Pol
     // (Van der Pol over three periods' worth of fast transitions, at loose and moderate tolerances: many recovered Newton failures)
     for (k, (kind, xend, rtol)) in [(Kind::Robertson, 40.0, 1e-5), (Kind::Robertson, 4000.0, 1e-5), (Kind::VdPStiff, 30.0, 1e-5), (Kind::VdPStiff, 800.0, 1e-5),
-                                    (Kind::VdPStiff, 3000.0, 1e-3), (Kind::VdPStiff, 3000.0, 1e-4), (Kind::Robertson, 1e6, 1e-3)].iter().enumerate() {
+                                    (Kind::VdPStiff, 3000.0, 1e-3), (Kind::VdPStiff, 3000.0, 1e-4), (Kind::Robertson, 1e6, 1e-3),
+                                    (Kind::Robertson, 1e11, 1e-5), (Kind::Robertson, 1e11, 1e-3), (Kind::Robertson, 1e9, 1e-7)].iter().enumerate() {
         for method in [Method::RADAU, Method::BDF] { for user_jac in [true, false] {
             let p = Prob { user_jac, ..Prob::new(*kind) };
             let o = Options::builder().method(method).rtol(*rtol).atol(rtol * 1e-4).build();
@@ -605,6 +606,8 @@ pub fn stiff(args: &[String]) {
                 }
                 _ => { why = "run fails".into(); key = "c14-status"; }
             }
+            // Robertson far into its tail (t >= 1e9) with the default finite-difference Jacobian is a recorded finding of its own
+            let key = if !why.is_empty() && *kind == Kind::Robertson && *xend >= 1e9 && !user_jac { "c14-robertson-late-fd-jacobian" } else { key };
             r14(200000 + k, &format!("{:?}", kind), method, key, &why, &format!("{}\"user_jac\":{},\"xend\":{},\"rtol\":{},", extra, user_jac, xend, jnum(*rtol)));
         } }
     }
